@@ -8,6 +8,8 @@ CONSTANTS
   InvalidValues = {"ZX"}
   EnvValues = {"Z0", "ZX"}
   Weak = {}
+  NoEnv = {}
+  WitnessK = 0
 INIT Init
 NEXT Next
 INVARIANTS NoEquivocation PrecommitJustified LockRespected ProposalCarriesValid
